@@ -131,8 +131,25 @@ def check_generate(repo):
         raise TranslateError("bindgen/lib.rs: Builder::generate default-edition arm not in the modelled form")
 
 
+def parse_cstr_gate(repo):
+    """condition under which string macros become `CStr` constants (codegen/mod.rs)"""
+    rel = "bindgen/codegen/mod.rs"
+    src = strip_comments(read(repo, rel))
+    m = re.search(r"let cstr\s*=\s*if\s+([^{]+)\{\s*CStr::from_bytes_with_nul\(&cstr_bytes\)\.ok\(\)\s*\}\s*else\s*\{\s*None\s*\}\s*;", src)
+    if not m:
+        raise TranslateError("%s: `let cstr = if COND { CStr::from_bytes_with_nul(..).ok() } else { None };` not found" % rel)
+    cond = re.sub(r"\s+", " ", m.group(1)).strip()
+    if cond == "options.generate_cstr && rust_features.const_cstr":
+        return False
+    if cond in ("options.generate_cstr && rust_features.const_cstr && (!options.use_core || rust_features.core_ffi_c)",
+                "options.generate_cstr && rust_features.const_cstr && (rust_features.core_ffi_c || !options.use_core)"):
+        return True
+    raise TranslateError("%s: unrecognised CStr condition %r" % (rel, cond))
+
+
 def generate(repo):
     src = read(repo, REL)
+    cstr_gate = parse_cstr_gate(repo)
     check_shape(src)
     check_generate(repo)
     editions = parse_editions(src)
@@ -178,5 +195,8 @@ def generate(repo):
     o.append("/-- how `RustTarget::from_str` steps a `-nightly` version back to the previous release -/")
     o.append("inductive DecrKind where\n  | unchecked  -- `minor -= 1;`\n  | checked    -- `minor.checked_sub(1)` else the invalid-input error\n  deriving DecidableEq, Repr\n")
     o.append("def nightlyDecr : DecrKind := .%s\n" % decr)
+    o.append("/-- does codegen require `core_ffi_c` before naming `::core::ffi::CStr` under `--use-core`?")
+    o.append("    (`let cstr = if options.generate_cstr && rust_features.const_cstr [&& (!options.use_core || rust_features.core_ffi_c)]`) -/")
+    o.append("def cstrCoreGate : Bool := %s\n" % ("true" if cstr_gate else "false"))
     o.append("end BindgenModel.Generated\n")
     return "\n".join(o)
